@@ -56,7 +56,25 @@ CLAIMS['C20'] = (
     'and are out of reach here',
     'DESIGN.md §6 C20, Appendix B')
 
-NOT_YET ='check not built yet in this session (see DESIGN.md §10 build order); not claimed until it is'
+CLAIMS['C09'] = (
+    'model_checking',
+    'explicit-state BFS over operation sequences on the real variable store against a dict model; exhaustive configuration x ambient-environment product on the real configure/regenerate/env/run commands',
+    '(a) breadth-first search to depth 4/5 over 41 operations (every mutator incl. |=, JSON round-trip, lazy change-log '
+    'materialisation) on the real EnvVarDict from the initial and every reached state, state = (ordered items, '
+    'initial, change log or lazy); invariants: contents and results equal a plain dict, apply(initial, changes) == '
+    'current, JSON round-trip equivalent. (b,d) the full product of configure options (backend, library mode, install '
+    'dirs with spaces, toolchain file, project arguments, compdb) is configured for real; the saved snapshot must '
+    'load/save stably and contain what was chosen; then regenerate, env and run are executed under every '
+    'one-at-a-time (and all-at-once) ambient change of 19 configuration-relevant variables and from several working '
+    'directories, and must reproduce the configure-time build files byte for byte / print the saved variables. '
+    '(c) snapshots downgraded with the inverse of each documented upgrade step (versions 4..16) must load to the '
+    'same configuration on every field the old version could express.',
+    'trusted: a plain dict as reference for the variable store; the downgrade inverses listed in the check; mopack '
+    'is broken in the image so package resolution is outside the check',
+    'DESIGN.md §6 C09')
+
+# --- more claims are appended above this line ---
+NOT_YET = 'check not built yet in this session (see DESIGN.md §10 build order); not claimed until it is'
 NOT_APPLICABLE = {}
 
 ALL = ['C%02d' % i for i in range(1, 21)]
